@@ -56,8 +56,15 @@ def _sync_sources(tree, fresh):
         for rel, sig in cur.items():
             if old.get(rel) != sig:
                 dst = os.path.join(tree, rel)
+                src = os.path.join(REPO, rel)
+                try:
+                    # regenerated or re-checked-out but identical: nothing to rebuild
+                    if os.path.exists(dst) and os.path.getsize(dst) == sig[0] and open(dst, 'rb').read() == open(src, 'rb').read():
+                        continue
+                except OSError:
+                    pass
                 vlib.mkdirs(os.path.dirname(dst))
-                shutil.copyfile(os.path.join(REPO, rel), dst)
+                shutil.copyfile(src, dst)
                 changed.append(rel)
         for rel in old:
             if rel not in cur:
@@ -69,6 +76,11 @@ def _sync_sources(tree, fresh):
     with open(man_path, 'w') as f:
         json.dump(cur, f)
     return changed
+
+
+def squid_binary(tree):
+    p = os.path.join(tree, 'src', 'squid.verif')
+    return p if os.path.exists(p) else os.path.join(tree, 'src', 'squid')
 
 
 def tree_path():
@@ -110,6 +122,13 @@ def ensure_binary(ctx, log=True):
             r = vlib.sh(['make', '-C', os.path.join(tree, sub), '-j%d' % vlib.NCPU, 'CPPFLAGS=' + CPPFLAGS], timeout=3000)
             if r.returncode != 0:
                 raise MachineryError('make failed in %s:\n%s' % (sub, r.stdout[-3000:]))
+        # checks start src/squid.verif: a copy that is replaced atomically, so that a relink in progress (src/squid is
+        # absent for a while) never hits a check that is running in parallel on the same tree
+        built, runbin = os.path.join(tree, 'src', 'squid'), os.path.join(tree, 'src', 'squid.verif')
+        if not os.path.exists(runbin) or os.stat(runbin).st_mtime_ns < os.stat(built).st_mtime_ns:
+            shutil.copy2(built, runbin + '.tmp')
+            os.utime(runbin + '.tmp')
+            os.replace(runbin + '.tmp', runbin)
         if log:
             ctx.log('squid tree %s ready in %.1fs (%s)' % (tree, time.time() - t0, 'seeded' if fresh else 'incremental'))
         return tree
@@ -236,7 +255,7 @@ class Squid:
         chown_r(self.run)
         for f in glob.glob('/dev/shm/squid-%s-*' % self.svc) + glob.glob('/dev/shm/%s-*' % self.svc):
             os.unlink(f)
-        args = [os.path.join(self.tree, 'src', 'squid'), '-f', self.conf, '-n', self.svc]
+        args = [squid_binary(self.tree), '-f', self.conf, '-n', self.svc]
         args += ['--foreground'] if self.workers else ['-N']
         args += ['-d1']
         self.out = open(os.path.join(self.run, 'stdout.txt'), 'ab')
@@ -258,7 +277,7 @@ class Squid:
     def init_dirs(self, wait=60.0):
         """squid -z: create cache_dir structures (run before start)"""
         chown_r(self.run)
-        args = [os.path.join(self.tree, 'src', 'squid'), '-f', self.conf, '-n', self.svc, '-z', '-N' if not self.workers else '--foreground']
+        args = [squid_binary(self.tree), '-f', self.conf, '-n', self.svc, '-z', '-N' if not self.workers else '--foreground']
         with open(os.path.join(self.run, 'stdout-z.txt'), 'ab') as out:
             p = subprocess.Popen(args, env=self.env, stdout=out, stderr=subprocess.STDOUT, cwd=self.run, user='nobody',
                                  group=NOBODY.pw_gid, extra_groups=[], start_new_session=True)
